@@ -28,6 +28,7 @@ RULE = (
     ' Round 7: `reuse` senders re-send the object an earlier wake delivered.'
     ' Round 8: `keys=types` (cover up/down/stop), `listener=persistent`.'
     ' Round 9: `debug_log`; sent Message objects are not kept alive by the harness.'
+    " Round 10: `pre_lines` (pre/post-sleep notifications, other nodes' heartbeats); rule buffered-send-written-directly; a bystander gateway whose node of the same id wakes."
 )
 ASSUMPTIONS = [
     "suspension points of send/flush are transport writes (plus whatever the loop needs to settle: a schedule step waits until six loop iterations pass without progress)",
